@@ -82,6 +82,10 @@ CHECKS["C17"] = dict(level="exploration", ref="DESIGN.md §5 C17",
    technique="generated byte strings at boundary lengths / NUL-rich / marker-like contents embedded with pack_file on three drivers, followed by generated journeys (patch boundary, reopen, copy, move, second embedding from the same path, merge); round-trip oracle on bytes and differential against hashlib/len for the attached file metadata; marker rejection with raw-tree-unchanged oracle",
    text="Generated search; bytes and metadata are compared with the source after every journey step for the node and all its copies, incl. the merged record. The one reserved value must be rejected on IH5 without traces.",
    note=TB + "; libmagic decides the mime type (not asserted)")
+CHECKS["C15"] = dict(level="exploration", ref="DESIGN.md §5 C15",
+   technique="exhaustive enumeration: start nodes x all 8 flag sets (set before / after a first navigation) x navigation chains (length <=2 quick, <=3 thorough) over every navigation primitive x every mutating / reading / upward operation, on both drivers; oracles: acl superset, raise + raw tree unchanged, locality of everything yielded, flags not clearable; unrestricted control runs prove non-vacuity",
+   text="Complete for the stated finite product (exhaustive: true per block). Bounded by chain length and by the protocol members; restrictions are documented as soft, so __wrapped__ is out of scope.",
+   note=TB)
 NOT_YET = {}
 def main():
     props = [json.loads(l) for l in open(os.path.join(HERE, "properties.jsonl"))]
